@@ -17,6 +17,7 @@ validated against the running interpreter (str.isalnum, string.whitespace, unico
 str.isidentifier) for every code point that is used.
 """
 import ast
+import copy
 import gzip
 import hashlib
 import json
@@ -344,6 +345,18 @@ def observe_props(names, req, generate=True):
     try:
         cls = parse_element(schema)
         ob["props"] = _class_props(cls)
+        # the same object reached through a type list: the parser walks the schema once per
+        # type, so the property table is parsed and then met again in its parsed form.  The
+        # claim holds for this form of the document too: when it deviates, it is the one observed.
+        try:
+            alt = parse_element(dict(copy.deepcopy(schema), type=["object", "null"]))
+            props2 = _class_props(alt.elements[0])
+            if props2 != ob["props"]:
+                ob["props"], ob["form"] = props2, "type-list"
+        except Exception as exc:  # noqa
+            ob["err"] = f"parse (type list): {type(exc).__name__}: {exc}"[:160]
+            ob["props"] = None
+            return ob
     except Exception as exc:  # noqa
         ob["err"] = f"parse: {type(exc).__name__}: {exc}"[:160]
         return ob
